@@ -41,13 +41,15 @@ def make(kind, prm, seed):
     if kind == "Variable":
         return bm.VariableUncertaintyBudgetManager(theta=th, s=s, w=W, budget=b)
     if kind == "RandomVariable":
-        return bm.RandomVariableUncertaintyBudgetManager(delta=1.0, theta=th, s=s, random_state=seed, w=W, budget=b)
+        return bm.RandomVariableUncertaintyBudgetManager(delta=1e-9 if prm.get("Sharp") else 1.0, theta=th, s=s,
+                                                         random_state=seed, w=W, budget=b)
     if kind == "Split":
         return bm.SplitBudgetManager(v=prm["v"], theta=th, s=s, random_state=seed, w=W, budget=b)
     if kind == "Random":
         return bm.RandomBudgetManager(random_state=seed, w=W, budget=b)
     if kind == "DensitySplit":
-        return bm.DensityBasedSplitBudgetManager(theta=th, s=s, delta=1.0, random_state=seed, budget=b)
+        return bm.DensityBasedSplitBudgetManager(theta=th, s=s, delta=1e-9 if prm.get("Sharp") else 1.0, random_state=seed,
+                                                 budget=b)
     if kind == "BIQF":
         return bm.BalancedIncrementalQuantileFilter(w=W, w_tol=float(Fraction(*prm["WTol"])), budget=b)
     if kind == "Periodic":
@@ -182,9 +184,14 @@ def chunks_of(stream, cuts):
     return [stream[a:b] for a, b in zip(edges[:-1], edges[1:])]
 
 
-def default_params(kind, W, B, allow=False):
+def default_params(kind, W, B, allow=False, sharp=None):
+    """sharp: the managers whose decision multiplies theta with a normal deviate are constructed with a negligible
+    delta, so that the deviate decides exact ties only and Budget.tla predicts every other decision (default for
+    those kinds; sharp=False keeps delta=1 with the decision left to the environment)"""
+    if sharp is None:
+        sharp = kind in ("RandomVariable", "DensitySplit")
     return {"kind": kind, "W": W, "B": list(B), "S": [1, 2], "Theta0": [1, 1], "K": 2,
-            "WTol": [2, 1], "Allow": bool(allow), "Stale": False, "v": 0.5}
+            "WTol": [2, 1], "Allow": bool(allow), "Stale": False, "Sharp": bool(sharp), "v": 0.5}
 
 
 def record(kind, prm, stream16, cuts, twice, seed, extra_query_other=False, thin=False):
@@ -204,7 +211,7 @@ def record(kind, prm, stream16, cuts, twice, seed, extra_query_other=False, thin
         obj = make(kind, prm, seed)
         stream_abs = list(stream16)
     events = []
-    P = {k: prm[k] for k in ("kind", "W", "B", "S", "Theta0", "K", "WTol", "Allow", "Stale")}
+    P = {k: prm[k] for k in ("kind", "W", "B", "S", "Theta0", "K", "WTol", "Allow", "Stale", "Sharp")}
     for chunk_raw, chunk in zip(chunks_of(stream16, cuts), chunks_of(stream_abs, cuts)):
         utils = np.array([util_float(v) for v in chunk], dtype=float)
         cand = np.array([[float(v)] for v in chunk_raw]) if thin else np.zeros((len(chunk), 1))
